@@ -490,8 +490,15 @@ impl TrustProvider for EigenTrustEngine {
         let node_id = node.clone();
         let local_trust = self.local_trust.clone();
         let trust_cache = self.trust_cache.clone();
+        let node_stats = self.node_stats.clone();
+        let global_trust = self.global_trust.clone();
 
         tokio::spawn(async move {
+            // Forget its statistics too, otherwise the next computation rebuilds the
+            // node from them and scores it again.
+            node_stats.write().await.remove(&node_id);
+            global_trust.write().await.remove(&node_id);
+
             // Remove from local trust matrix
             let mut trust_map = local_trust.write().await;
             trust_map.retain(|(from, to), _| from != &node_id && to != &node_id);
